@@ -487,8 +487,8 @@ def search(ctx, rng, budget):
     # 6b. observed through abel.center_image: a blob symmetric about a pixel centre near the middle ends up centred on
     #     (rows//2, cols//2) of the result, for every method, odd_size / square flag, parity and aspect
     for it in range(max(40, budget // 4)):
-        n, m = (int(v) for v in rng.integers(12, 40, size=2))
-        k0, k1 = n // 2 + int(rng.integers(-2, 3)), m // 2 + int(rng.integers(-2, 3))
+        n, m = (int(v) for v in rng.integers(16, 40, size=2))
+        k0, k1 = n // 2 + int(rng.integers(-1, 2)), m // 2 + int(rng.integers(-1, 2))
         IMc = np.zeros((n, m))
         X = rng.integers(1, 9, size=(5, 5)).astype(float)
         if it % 2:
@@ -504,7 +504,8 @@ def search(ctx, rng, budget):
         distinct.add(('ci', meth, odd, sq, n % 2, m % 2, (n > m) - (n < m), order))
         h = mkhit('center_image', meth, (0, 1), IMc, 'center_image(method=%r, odd_size=%s, square=%s, order=%d) on a %r image with a blob '
                   'symmetric about pixel (%d, %d) does not put it on the image centre' % (meth, odd, sq, order, (n, m), k0, k1),
-                  1e-6 if meth != 'gaussian' else 1e-5, odd_size=odd, square=sq, order=order)
+                  # (gaussian: the fit of a compact, truncated blob is only approximately its symmetry centre)
+                  1e-6 if meth != 'gaussian' else 0.05, odd_size=odd, square=sq, order=order)
         if not eval_snippet_clause(h):
             hits.append(h)
     # 7. Gaussian spots over the whole space: frames 10 .. 1100 px, width 0.6 px .. a quarter of the frame,
